@@ -9,19 +9,19 @@ PROPS = {
         technique="model-based stateful property testing (rapid) of the real ReconcileNode in a closed loop over a fake API server and a controller-level cloud simulator with generated fault plans "
                   "(before-effect / after-effect / partial, real error codes, status-update conflicts and failures); call-time quota monitors against a knowledge ledger, per-pass 'told but forgotten' check, "
                   "bounded-step convergence, record == cloud and no-orphan at the fixed point of a healthy settle phase",
-        rule="drawn node configuration (stack, adapters 2..6(8), per-adapter limits 1..20, trunk/rdma/secondary flavor as the daemon publishes it, pool min<=max, 1..3 vSwitches with free counts, tag filter, attach/detach latency, EFLO), "
+        rule="drawn node configuration (stack, adapters 2..6(8), per-adapter limits 1..20, trunk/rdma/secondary flavor as the daemon publishes it, pool min<=max, 1..3 vSwitches with free counts, tag filter, attach/detach latency, strict or lenient Describe-by-id semantics, EFLO), "
              "0..3 consistent pre-existing interfaces, then 1..22(40) actions out of pod create/delete/exit/cniAdd/reportDeleted, reconcile, fullSync, burst, cloudFault, apiFault and fault episodes (faults armed right before demand arrives); "
              "non-trivial = a monitor was evaluated at a quota/batch boundary, or a fault hit between create and InUse (attach, wait, create-after-effect), or a partial assign happened; distinct = distinct scenario hash",
         assumptions=[
             "cloud simulated at the pkg/controller.Interface level (zz_verif/cloudctl): ECS assign calls answer (nil, err) on any error, the EFLO assign call may answer the name of a half-created address with an error, "
-            "Detach of a missing interface and UnAssign of missing addresses succeed, Delete of a missing interface fails on ECS, DescribeNetworkInterfaces ANDs its filters (a detached interface does not match an instance-id filter), "
+            "Detach of a missing interface and UnAssign of missing addresses succeed, Delete of a missing interface fails on ECS, DescribeNetworkInterfaces ANDs its filters; whether a query by interface id AND instance id also answers an interface that is attached to no instance cannot be confirmed offline, so each case draws one of the two semantics (strict: not answered / lenient: answered), "
             "the ECS create answer carries no traffic mode, addresses are never reused; idempotency tokens are below this interface (a create that took effect but timed out leaves an interface the controller was never told about: excluded from the orphan check)",
             "quota monitors judge a request against what the controller has been TOLD (Describe answers, successful Create/Assign answers, minus what it released), not against cloud ground truth; a restarted controller knows the persisted record",
             "convergence clause asserted only with spare capacity: every vSwitch option of the zone has >= 200 free addresses, the cloud admits as many interfaces as the node declares and no interface invisible to the controller uses up the quota; "
             "'served' excludes nothing in this mode (no drift); idle is counted as adjustPool counts it; idle primaries of interfaces that must stay (in-use siblings, trunk, rdma) are exempt from the upper bound; "
             "a fixed point = three consecutive reconciles without mutating cloud request and without change of the record's interfaces/addresses/bindings (sync timestamps and error conditions ignored); a pass may still report 'no capacity'",
             "rollback clause: per pass, everything the controller was told and did not release is in the record it persisted; at the fixed point record == cloud for interfaces attached to the instance and their address sets "
-            "(interfaces recorded as Deleting only need to stay recorded), and no interface answered by a Create call is left unattached and unrecorded",
+            "(interfaces recorded as Deleting only need to stay recorded), and no interface answered by a Create call is left unattached and unrecorded; the exclusion of finding C08-sync-drops-detached-eni applies only where the full sync cannot see the detached interface (strict Describe semantics, or a kind other than Secondary, which the sync drops without looking) - under lenient semantics a leaked Secondary interface is a violation; a throttled Delete may persist for up to three calls",
             "hard-coded waits in pool.go scaled by a line-preserving source transform; LastReconcileTime guard reset, gcPeriod 0, backoff table overridden; cached vSwitch blocks are expired before the settle phase",
         ],
         level_text="fault placements over the cloud-call and status-write sequence of each history are sampled by the generator (per call kind: error before effect, after effect, partial result; per error code), not exhaustively enumerated; "
